@@ -50,20 +50,6 @@ func customise(e *chain.Entry, shapes []rshape, hdr func(h *core.Header)) (*core
 	return cm, nil
 }
 
-func storeCopy(bc *blockchain.Blockchain, e *chain.Entry) error {
-	blk := deepCopy(e.Block)
-	su := deepCopy(e.SU)
-	cls := deepCopy(e.Classes)
-	cm, err := bc.SanityCheckNewHeight(blk, su, cls)
-	if err != nil {
-		return fmt.Errorf("SanityCheckNewHeight: %w", err)
-	}
-	if err := bc.Store(blk, cm, su, cls); err != nil {
-		return fmt.Errorf("Store: %w", err)
-	}
-	return nil
-}
-
 // checkReader reads block sb back through every Reader method.
 func (h *harness) checkReader(bc *blockchain.Blockchain, d db.KeyValueStore, sb *storedBlock, isHead bool, cfg string) bool {
 	ok := true
@@ -205,8 +191,11 @@ func (h *harness) checkReader(bc *blockchain.Blockchain, d db.KeyValueStore, sb 
 		bad("TransactionExecutionStatusByBlockNumberAndIndex index=len", fmt.Sprintf(": want ErrKeyNotFound got %v", err))
 	}
 	su, err := bc.StateUpdateByNumber(n)
+	suByNum := su
 	if must("StateUpdateByNumber", err) {
 		chk("StateUpdateByNumber", diff(sb.E.SU, su))
+	} else {
+		suByNum = nil
 	}
 	su, err = bc.StateUpdateByHash(b.Hash)
 	if must("StateUpdateByHash", err) {
@@ -215,6 +204,16 @@ func (h *harness) checkReader(bc *blockchain.Blockchain, d db.KeyValueStore, sb 
 	cm, err := bc.BlockCommitmentsByNumber(n)
 	if must("BlockCommitmentsByNumber", err) {
 		chk("BlockCommitmentsByNumber", diff(sb.CM, cm))
+	}
+	// independent of any reference copy: the state diff the node returns must be the one the block committed to
+	// (StateDiffCommitment / StateDiffLength exist from 0.13.2 on; every version built here is >= 0.13.2)
+	if su2 := suByNum; su2 != nil && err == nil && su2.StateDiff != nil && geVersion(b.ProtocolVersion, "0.13.2") {
+		if hh := su2.StateDiff.Hash(); cm.StateDiffCommitment == nil || !hh.Equal(cm.StateDiffCommitment) {
+			bad("stored state diff vs stored StateDiffCommitment", ": hash of the returned state diff is not the stored commitment")
+		}
+		if l := su2.StateDiff.Length(); l != cm.StateDiffLength {
+			bad("stored state diff vs stored StateDiffLength", fmt.Sprintf(": %d != %d", cm.StateDiffLength, l))
+		}
 	}
 	// declared classes: through the head state, the state at this block, and the raw accessor
 	for ch, def := range sb.E.Classes {
@@ -244,7 +243,7 @@ func (h *harness) checkReader(bc *blockchain.Blockchain, d db.KeyValueStore, sb 
 			bad("core.HasClass", fmt.Sprintf(": has=%v err=%v", has, err))
 		}
 	}
-	h.r.Add("accessor_reads", int64(22+len(b.Transactions)*8+len(sb.E.Classes)*4))
+	h.r.Add("accessor_reads", int64(23+len(b.Transactions)*8+len(sb.E.Classes)*4))
 	return ok
 }
 
@@ -378,7 +377,7 @@ func (h *harness) storePhase(versions []string, rots int) {
 		defer d.Close()
 		bc := chain.NewNode(d, j.cfg.newState)
 		for bi, sb := range plan {
-			if err := storeCopy(bc, sb.E); err != nil {
+			if _, err := h.put(bc, sb.E, sb.CM, viaStore, cfg); err != nil {
 				h.r.Violate("reader/store rejected a valid block", map[string]any{"cfg": cfg, "block": bi, "what": describe(sb.E), "err": err.Error()})
 				return
 			}
@@ -470,7 +469,7 @@ func (h *harness) suPatternPhase(patterns []int) {
 			}
 			store = backends[j.cfg.be].open()
 			bc = chain.NewNode(store, j.cfg.newState)
-			if err := storeCopy(bc, base); err != nil {
+			if _, err := h.put(bc, base, baseCM, viaStore, j.cfg.String()+" su-pattern base"); err != nil {
 				h.r.Infra("base store on %s: %v", j.cfg, err)
 			}
 		}
@@ -491,7 +490,7 @@ func (h *harness) suPatternPhase(patterns []int) {
 			if err != nil {
 				h.r.Infra("pattern %v: hash: %v", s, err)
 			}
-			if err := storeCopy(bc, e); err != nil {
+			if _, err := h.put(bc, e, cm, viaStore, cfg); err != nil {
 				h.r.Violate("reader/store rejected a valid state-update pattern", map[string]any{"cfg": cfg, "err": err.Error()})
 				open()
 				continue
